@@ -1,29 +1,61 @@
 use crate::impl_display_by_debug;
 use dashmap::DashMap;
 use std::ffi::c_void;
-use std::fmt::Debug;
+use std::fmt::{Debug, Formatter};
+
+/// A stored value: the address of its leaked box and the function that releases
+/// a box of its type (the type is erased in the map).
+#[repr(C)]
+#[derive(Clone, Copy)]
+struct Slot {
+    ptr: usize,
+    release: unsafe fn(usize),
+}
+
+impl Slot {
+    fn new<V>(val: V) -> Self {
+        /// Drop the value and free its box.
+        unsafe fn release<V>(ptr: usize) {
+            drop(unsafe { Box::from_raw((ptr as *mut c_void).cast::<V>()) });
+        }
+        Self {
+            ptr: std::ptr::from_mut(Box::leak(Box::new(val))) as usize,
+            release: release::<V>,
+        }
+    }
+}
+
+impl Debug for Slot {
+    fn fmt(&self, f: &mut Formatter<'_>) -> std::fmt::Result {
+        Debug::fmt(&self.ptr, f)
+    }
+}
 
 /// todo provide macro like [`std::thread_local`]
 /// A struct for coroutines handles local args.
+///
+/// The values still stored are dropped together with the `CoroutineLocal`.
 #[repr(C)]
 #[derive(Debug, Default)]
-pub struct CoroutineLocal<'c>(DashMap<&'c str, usize>);
+pub struct CoroutineLocal<'c>(DashMap<&'c str, Slot>);
 
 #[allow(clippy::must_use_candidate)]
 impl<'c> CoroutineLocal<'c> {
     /// Put a value into the coroutine local.
-    pub fn put<V>(&self, key: &'c str, val: V) -> Option<V> {
-        let v = Box::leak(Box::new(val));
+    ///
+    /// The value is dropped with the coroutine local unless it is taken back
+    /// first, so it must not borrow anything shorter than `'c`.
+    pub fn put<V: 'c>(&self, key: &'c str, val: V) -> Option<V> {
         self.0
-            .insert(key, std::ptr::from_mut(v) as usize)
-            .map(|ptr| unsafe { *Box::from_raw((ptr as *mut c_void).cast::<V>()) })
+            .insert(key, Slot::new(val))
+            .map(|slot| unsafe { *Box::from_raw((slot.ptr as *mut c_void).cast::<V>()) })
     }
 
     /// Get a value ref from the coroutine local.
     pub fn get<V>(&self, key: &'c str) -> Option<&V> {
         self.0
             .get(key)
-            .map(|ptr| unsafe { &*(*ptr as *mut c_void).cast::<V>() })
+            .map(|slot| unsafe { &*(slot.ptr as *mut c_void).cast::<V>() })
     }
 
     /// Get a mut value ref from the coroutine local.
@@ -31,14 +63,25 @@ impl<'c> CoroutineLocal<'c> {
     pub fn get_mut<V>(&self, key: &'c str) -> Option<&mut V> {
         self.0
             .get(key)
-            .map(|ptr| unsafe { &mut *(*ptr as *mut c_void).cast::<V>() })
+            .map(|slot| unsafe { &mut *(slot.ptr as *mut c_void).cast::<V>() })
     }
 
     /// Remove a key from the coroutine local.
     pub fn remove<V>(&self, key: &'c str) -> Option<V> {
         self.0
             .remove(key)
-            .map(|ptr| unsafe { *Box::from_raw((ptr.1 as *mut c_void).cast::<V>()) })
+            .map(|(_, slot)| unsafe { *Box::from_raw((slot.ptr as *mut c_void).cast::<V>()) })
+    }
+}
+
+impl Drop for CoroutineLocal<'_> {
+    fn drop(&mut self) {
+        // empty the map first, then release what it held
+        let slots: Vec<Slot> = self.0.iter().map(|entry| *entry.value()).collect();
+        self.0.clear();
+        for slot in slots {
+            unsafe { (slot.release)(slot.ptr) };
+        }
     }
 }
 
